@@ -321,8 +321,8 @@ class Model:
             old = self.tree.get(p)
             if saved_rest:
                 if old is None:
-                    # restart write to a missing file: outcome differs per backend (C18's subject)
-                    r["backend_dependent"] = True
+                    # restart write (r+b) to a missing file fails on every backend; nothing is created
+                    r["codes"][-1] = "451"
                     return r
                 new = (old[:saved_rest].ljust(saved_rest, b"\0") + payload + old[saved_rest + len(payload):]) if payload else old
             elif v == "stor":
